@@ -9,6 +9,9 @@ RULE = ("one run = 1-8 concurrent client tasks issuing 1-30 EtherCat.roundtrip c
         "(sizes 0..1472 and beyond, bursts in one loop iteration, short wait_for "
         "timeouts, client cancellation) against plain-memory terminals on the simulated "
         "wire (loss/dup/delay/reorder, unprocessed datagrams, all drawn from one tape); "
+        "in 'fast-master' the master is a FastEtherCat, i.e. every returning frame passes the "
+        "real EtherXDP dispatcher byte code, and packet indices are biased towards values "
+        "that look like a sync group's slot number in their low bits; "
         "distinct = distinct SHA-256 of the full event log (every tx/rx frame, submit "
         "and completion with global sequence numbers); non-trivial = at least 2 "
         "requests and 1 frame")
